@@ -389,13 +389,16 @@ Proof.
   set (si := new_segment c nid0 base).
   match goal with |- context [io ?a e] => destruct (io a e) as [ok1 e1] eqn:Eio end.
   pose proof (io_meta_files _ _ _ _ Eio I) as Ef1.
-  destruct (io_cases _ _ _ _ Eio) as [(-> & Ed)|(-> & Ed)]; cbn [negb].
-  2:{ intros [= <- <-]. rewrite Ed. split; [exact ND|]. right. auto. }
   assert (ND1 : NoDup (map fst (dk_files (e_disk e1)))) by (rewrite Ef1; exact ND).
-  assert (Em1 : meta_segs (e_disk e1) = seg_set si segs) by (rewrite Ed; reflexivity).
   assert (H1 : ISs' (e_disk e1) (seg_set si segs)).
   { eapply ISs'_files; [exact Ef1|]. eapply ISs'_incl; [|exact Hs]. intros x Hx.
     apply in_seg_set in Hx as [->|Hx]; [right; apply new_segment_IS'|left; exact Hx]. }
+  destruct (io_cases3 _ _ _ _ Eio) as [(-> & Ed)|[(-> & Ed)|(-> & _ & Ed)]]; cbn [negb].
+  2:{ intros [= <- <-]. rewrite Ed. split; [exact ND|]. right. auto. }
+  2:{ (* the commit is reported as failed and found applied *)
+      intros [= <- <-]. split; [exact ND1|]. left.
+      replace (meta_segs (e_disk e1)) with (seg_set si segs) by (rewrite Ed; reflexivity). exact H1. }
+  assert (Em1 : meta_segs (e_disk e1) = seg_set si segs) by (rewrite Ed; reflexivity).
   destruct (seg_create si e1) as [sw e2] eqn:Es.
   assert (Hn : forall s, In s (seg_set si segs) -> si_sealed s = true -> name_of s <> name_of si).
   { intros s Hx Hss. apply in_seg_set in Hx as [->|Hx]; [discriminate|]. apply (ids_name_neq segs nid0 base s c Hid Hx). }
@@ -458,7 +461,7 @@ Proof.
   - destruct (io AInitMeta e) as [ok0 e0] eqn:Eio.
     pose proof (io_meta_files _ _ _ _ Eio I) as Ef0.
     assert (Em0 : dk_meta (e_disk e0) = dk_meta (e_disk e)).
-    { destruct (io_cases _ _ _ _ Eio) as [(_ & ->)|(_ & ->)]; reflexivity. }
+    { destruct (io_cases _ _ _ _ Eio eq_refl) as [(_ & ->)|(_ & ->)]; reflexivity. }
     assert (Hbase : NoDup (map fst (dk_files (e_disk e0))) /\ ISs' (e_disk e0) (meta_segs (e_disk e0))).
     { split; [rewrite Ef0; exact ND|]. rewrite (meta_segs_files _ _ Em0). eapply ISs'_files; eauto. }
     destruct ok0; cbn [negb]; [|intros [= <- <-]; exact Hbase].
